@@ -253,14 +253,15 @@ def r09_3(ck):
                     d.value, ast.Subscript) and A.is_name(
                     d.value.value, mv) and A.subscript_key(d.value) == field]
         ok = False
-        for d in defs:
-            nm = d.name
+        # the operand under its local name(s), or read in place
+        raw = "%s['%s']" % (mv, field)
+        for nm in [d.name for d in defs] + [raw]:
             tests = [n for n in A.walk_no_nested(m.node)
                      if isinstance(n, ast.If) and any(
                          a[0] == 'isinstance' and a[1] == nm
                          for a in A.cond_atoms(n.test, True))]
             conv = [c for c in A.calls_in(m.node, 'convert_path')
-                    if nm in A.names_in(c)]
+                    if nm in A.names_in(c) or raw in A.unparse(c)]
             ok = ok or bool(tests) or bool(conv)
         ck.require(ok, 'R09.3', m, "move['%s']" % field,
                    'the %s location accepts a key or a path' % field,
@@ -590,6 +591,36 @@ def r09_9(ck):
                        'every entry reaches self.%s(...)' % meth,
                        "an entry of '%s' can be skipped without being "
                        'carried out' % key, lp)
+            # what the operation reports is folded in the same iteration:
+            # otherwise only the last entry of the list is reported
+            for c in A.calls_in(lp, meth):
+                if not A.is_name(A.call_receiver(c), 'self'):
+                    continue
+                st = enclosing_stmt(c)
+                if not isinstance(st, ast.Assign):
+                    continue
+                names = [t.id for t in ast.walk(st.targets[0])
+                         if isinstance(t, ast.Name)]
+                for nm in names:
+                    folds = {cfg.node(x) for x in A.calls_in(
+                        f.node, ('extend', 'append'))
+                        if x.args and nm in A.names_in(x.args[0])
+                        and within(x, lp)}
+                    folds |= {cfg.node(x) for x in A.walk_no_nested(lp)
+                              if isinstance(x, ast.AugAssign)
+                              and nm in A.names_in(x.value)}
+                    folds.discard(None)
+                    okf = bool(folds) and cfg.must_pass(
+                        cfg.node(st), hdr, folds, within=body | {hdr})
+                    ck.require(okf, 'R09.9', f, st,
+                               'what self.%s reports (%s) is folded into '
+                               'the result in the same iteration' % (
+                                   meth, nm),
+                               "the %s reported by self.%s for an entry of "
+                               "'%s' are folded outside the loop over the "
+                               'entries: only the last entry is reported '
+                               'to the engine, the processes of the others '
+                               'are never registered' % (nm, meth, key), st)
     ck.floor('R09.9', n, 4, 'loops over structural entries')
 
 
